@@ -8,7 +8,7 @@ lockstep, the best-path walk never repeats a node, sequence_of_path spells nodes
 orientation; and for graphs produced by compression: the node builders' terminal-extension tables (taken from the last
 path k-mer / node, complemented when traversed flipped) and the complete step tables of both routes (a node that absorbs a
 palindrome or a branch has an edge with no way back)."""
-from .. import dt_graph, dt_compress, dt_tables, dt_filter
+from .. import dt_msp, dt_graph, dt_compress, dt_tables, dt_filter
 from . import common
 
 ASSUMPTIONS = ["that the set of resolvable edges equals the input's (K+1)-mers is a data-dependent fact not decided here"]
@@ -45,3 +45,5 @@ def run(F, rep):
     rep.run(common.run_kmer_lemmas, F, rep, {"bucket"})
     # find_link / find_edges / the index builders see a node through its terminal k-mers: Vmer::get_kmer on views of the packed store
     rep.run(common.run_store_kmer_lemmas, F, rep, "C03.10")
+    # "the set of resolvable edges equals the set of (K+1)-mers observed in the input": the boundary extensions of read pieces
+    rep.run(dt_msp.slice_bounds_tables, F, rep, "C03.12")
